@@ -48,6 +48,19 @@ theorem select_cost_le (g : BuildGraph) (s : Selector) (h : Host) (order sel : L
     simpa using this
   omega
 
+/-- Output-conflict detection: one `getAncestorSet` (memo cache left out, see `ancestorSetV`) costs at most
+    `1 + |inEdges v| + |E|` steps and returns exactly the transitive dependencies, for every graph. With
+    `k` output records the detection asks `targetsAreOrdered` for at most `k²` pairs, each at most two
+    ancestor sets: `≤ 2·k²·(1 + 2|E|)` steps without the cache (the cache replaces expansions by set
+    unions; the real cost is measured by tools/checks/c19.py). -/
+theorem ancestor_set_cost_le (es : List Edge) (v : Nat) :
+    (ancestorSetV es v).cost ≤ 1 + 2 * es.length ∧
+    ∀ x, x ∈ (ancestorSetV es v).nodes ↔ ReachPlus es x v := by
+  refine ⟨?_, fun x => mem_ancestorSetV⟩
+  have h1 := ancestorSetV_cost_le es v
+  have h2 := length_preds_le es v
+  omega
+
 /-- the hypotheses of `select_cost_le` are satisfiable (x ← alias ← t, pattern `//:t`): cost 3 ≤ 3 + 2 -/
 example :
     let g : BuildGraph := ⟨[⟨⟨[], [120]⟩, true, [], [], false⟩, ⟨⟨[], [97, 120]⟩, false, [], [], false⟩,
